@@ -5,7 +5,7 @@ calls, related by dt-halving and by velocity reversal, plus independent single p
 coordinates and live unit-constant identities.
 
 clauses (names as they appear in `margins` / violations)
-  P-conservation      |P(s)-P(0)| <= 1e-12 * sum m|v|                                     (a)
+  P-conservation      |P(s)-P(0)| <= 1e-12 * sum m|v|  (+ 16 eps_mach cond(I) per angular COM removal)   (a)
   L-conservation      |L(s)-L(0)| <= 1e-8 * sum m|r||v| + 2e3*eps*ACC*t*sum|r|            (a)
   reversal-x/-v       restart from (x_N, -v_N) for N steps returns to (x_0, -v_0): 1e-7 A / 1e-8 A/fs  (b)
   order               ||x_dt - x_dt/2|| / ||x_dt/2 - x_dt/4|| in [3, 5.5] at the common end time  (c)
@@ -87,9 +87,8 @@ def gen_cases(tier, seed):
         for mols, method in ((["H2O"], "AM1"), (["CH2O"], "AM1"), (["NH3"], "PM3"), (["CH3OH"], "AM1"),
                              (["H2O"], "MNDO"), (["HCN"], "PM3"), (["NH3", "CH2O", "H2O"], "AM1"),
                              (["CH4", "H2O"], "PM6_SP"), (["H2S"], "PM3"), (["CO2"], "AM1")):
-            for k, (rp, rc) in enumerate(((True, None), (False, ["angular", 3]), (True, ["linear", 1]))):
-                if k and len(fam) % 2:
-                    continue
+            variants = [(True, None), (False, ["angular", 3]) if len(fam) % 4 < 2 else (True, ["linear", 1])]
+            for rp, rc in variants:
                 fam.append(dict(mols=mols, method=method, dts=[0.4, 0.2, 0.1, 0.05], t_end=8.0, reuse_P=rp,
                                 remove_com=rc))
         fam.append(dict(mols=["CH2O"], method="AM1", dts=[0.2, 0.1, 0.05], t_end=4.0, reuse_P=True, remove_com=None,
@@ -253,7 +252,14 @@ def _check_run(acc, h, Zr, dt, nsteps, remove_com, t_total, tag):
     tolL = TOL_L * ls + 2e3 * EPS * md.REF_ACC_SCALE * t_total * rsum
     if dL > tolL:
         mech = _pole_mech(Zr, x)
-    acc.upd("P-conservation", dP, TOL_P * ps, {"run": tag, "scale": ps})
+    tolP = TOL_P
+    if remove_com is not None and str(remove_com[0]).lower() == "angular":
+        # each angular removal subtracts omega x r with |omega| <= |L|/I_min: rounding ~ eps_machine * cond(I) per call
+        w = np.linalg.eigvalsh(md.inertia(mm, x[0] - md.com(mm, x[0])))
+        w = w[w > 1e-10]
+        ncall = 1 + nsteps // max(1, int(remove_com[1]))
+        tolP += 16.0 * 2.220446049250313e-16 * float(w.max() / w.min()) * ncall
+    acc.upd("P-conservation", dP, tolP * ps, {"run": tag, "scale": ps, "rel_tolerance": tolP})
     acc.upd("L-conservation", dL, tolL, {"run": tag, "scale": ls}, mech=mech)
     # (e) rows
     ek_amu = np.array([md.kinetic_amu(mm, v[s_]) for s_ in range(len(v))])
